@@ -318,7 +318,8 @@ def gen_unit(unit, _stack=()):
             parts = st.split()
             u2, fn = parts[2], parts[3]
             hdr = import_header(u2, fn, _stack + (unit,))
-            add("#[verifier::external_body]\n" + hdr.rstrip() + "\n{ unimplemented!() }\n")
+            hdr = hdr.replace("#[verifier::external_body]", "")
+            add("#[verifier::external_body]\n" + hdr.strip() + "\n{ unimplemented!() }\n")
             g.assumptions.append("import %s::%s (contract proved in unit %s)" % (u2, fn, u2))
             i += 1
             continue
@@ -486,6 +487,8 @@ def tree_align(mtoks, real):
                     if i == nt:
                         continue
                     best, how = f[i + 1][j][0], "skip"
+                    if best > NEG and (c == 1 or i == 0) and _starter_ok(tnodes, i):
+                        best += 3
                     x, y = tnodes[i], rnodes[j]
                     ok = False
                     g = 0
@@ -515,6 +518,15 @@ def tree_align(mtoks, real):
                 i, c = i + 1, 0
         memo[k] = (f[0][0][0], pairs)
         return memo[k]
+
+    def _starter_ok(tnodes, i):
+        tx = []
+        for x in tnodes[i:i + 3]:
+            tx.append(mtoks[x[0]].text)
+        for st in GHOST_STARTERS:
+            if tx[:len(st)] == st[:len(tx)] and len(tx) >= min(len(st), 2):
+                return True
+        return False
 
     def apply(tnodes, rnodes):
         sc, pairs = embed(tnodes, rnodes)
